@@ -30,6 +30,20 @@ def inst_terms(ob, skolems):
     return out
 
 
+def select_indices(e, limit=12):
+    """ground Int index terms of array reads in the (negated) goal: instantiation triggers"""
+    out, seen, todo = [], set(), [e]
+    while todo and len(out) < limit:
+        x = todo.pop()
+        if not z3.is_app(x) or x.get_id() in seen:
+            continue
+        seen.add(x.get_id())
+        if x.decl().kind() == z3.Z3_OP_SELECT and x.arg(1).sort() == IntS:
+            out.append(x.arg(1))
+        todo.extend(x.children())
+    return out
+
+
 def theory_axioms(exprs):
     """Defining facts of the uninterpreted string vocabulary, one instance per application that occurs.
     lstrip(s): s == wsprefix(s) ++ lstrip(s), wsprefix all whitespace, result does not start with whitespace,
@@ -91,7 +105,7 @@ def build_query(ob, extra_axioms=()):
         neg = z3.Not(goal)
     for h in ob.hyps:
         s.add(h)
-    terms = inst_terms(ob, skolems)
+    terms = inst_terms(ob, skolems + select_indices(neg))
     for q in ob.qfacts:
         for t in terms:
             s.add(q.inst(t))
